@@ -45,7 +45,9 @@ def _uses_pi(terms):
     return False
 
 
-def lemmas_for(apps, with_pi):
+def lemmas_for(apps, with_pi, level='all'):
+    if level == 'basic':
+        return basic_lemmas(apps, with_pi)
     L = []
     R = z3.RealVal
     if with_pi:
@@ -83,7 +85,7 @@ def lemmas_for(apps, with_pi):
     _triples_hom(L, ex)
     for t in apps.get('ln', []):
         x = t.arg(0)
-        L += [z3.Implies(x > 0, UF['exp'](t) == x), z3.Implies(x == 1, t == 0),
+        L += [z3.Implies(x > 0, UF['exp'](t) == x), z3.Implies(x == 1, t == 0), z3.Implies(x > 1, t > 0), z3.Implies(z3.And(x > 0, x < 1), t < 0),
               z3.Implies(x == 10, z3.And(t > R('2.302585'), t < R('2.302586'))),
               z3.Implies(x == 2, z3.And(t > R('0.693147'), t < R('0.693148')))]
     cs = {}
@@ -120,6 +122,10 @@ def lemmas_for(apps, with_pi):
         for t in er[i + 1:]:
             a, b = s.arg(0), t.arg(0)
             L += [z3.Implies(a == -b, s == 2 - t), (a < b) == (s > t), (a == b) == (s == t)]
+    for t in apps.get('powr', []):
+        b, e = t.arg(0), t.arg(1)
+        L += [z3.Implies(b > 0, t > 0), z3.Implies(z3.And(b > 0, b <= 1, e >= 0), t <= 1), z3.Implies(e == 0, t == 1), z3.Implies(e == 1, t == b),
+              z3.Implies(z3.And(b >= 0, e > 0), t >= 0), z3.Implies(z3.And(b >= 1, e >= 0), t >= 1)]
     p2 = apps.get('pow2', [])
     for t in p2:
         k = t.arg(0)
@@ -151,7 +157,53 @@ def _triples_hom(L, ts):
                 L.append(z3.Implies(a.arg(0) == b.arg(0) + c.arg(0), a == b * c))
 
 
-def instantiate(terms, rounds=2):
+def basic_lemmas(apps, with_pi):
+    """sign / square facts only (for polynomial-identity obligations where the special functions are just atoms)"""
+    L = []
+    if with_pi:
+        L += [PI > z3.RealVal('3.14159'), PI < z3.RealVal('3.1416')]
+    for t in apps.get('sqrt', []):
+        x = t.arg(0)
+        L.append(z3.Implies(x >= 0, z3.And(t >= 0, t * t == x)))
+    for n in ('pow10', 'exp'):
+        for t in apps.get(n, []):
+            L.append(t > 0)
+    for t in apps.get('erfc', []):
+        L += [t > 0, t < 2]
+    cs = {}
+    for n in ('cos', 'sin'):
+        for t in apps.get(n, []):
+            cs.setdefault(t.arg(0).get_id(), t.arg(0))
+    for a in cs.values():
+        L.append(UF['cos'](a) * UF['cos'](a) + UF['sin'](a) * UF['sin'](a) == 1)
+    for t in apps.get('powr', []):
+        L.append(z3.Implies(t.arg(0) > 0, t > 0))
+    return L
+
+
+def abstract_ufs(terms):
+    """replace every special-function application by a fresh real constant, innermost first (congruence is preserved:
+    syntactically equal applications get the same constant).  Sound for proving validity."""
+    terms = [z3.simplify(t) for t in terms]
+    mapping = {}
+    for _ in range(12):
+        apps = collect(terms)
+        allapps = [t for ts in apps.values() for t in ts]
+        if not allapps:
+            break
+        inner = [t for t in allapps if not collect(list(t.children()))]
+        if not inner:
+            break
+        subs = []
+        for t in inner:
+            v = z3.Real(f'uf!{t.decl().name()}!{len(mapping)}') if t.sort() == z3.RealSort() else z3.Int(f'uf!{t.decl().name()}!{len(mapping)}')
+            mapping[v] = t
+            subs.append((t, v))
+        terms = [z3.simplify(z3.substitute(x, *subs)) for x in terms]
+    return terms, mapping
+
+
+def instantiate(terms, rounds=2, level='all'):
     """lemma instances for all special-function applications occurring in `terms` (and in the lemmas themselves)"""
     out = []
     seen = set()
@@ -161,7 +213,7 @@ def instantiate(terms, rounds=2):
         apps = collect(cur + out)
         with_pi = (not pi_done) and (_uses_pi(cur + out) or 'cos' in apps or 'sin' in apps)
         new = []
-        for l in lemmas_for(apps, with_pi):
+        for l in lemmas_for(apps, with_pi, level):
             l = z3.simplify(l)
             if z3.is_true(l):
                 continue
